@@ -135,7 +135,9 @@ def smib_case(ctx, c):
         d2_on_3 = np.interp(t3, runs[H[1]]['t'], runs[H[1]]['delta'])
         extrap = 2 * runs[H[2]]['delta'] - d2_on_3
         e_x = float(np.max(np.abs(extrap - ref_at[H[2]])))
-        if not (errs[H[2]] < errs[H[1]] < errs[H[0]]) or errs[H[2]] > 0.8 * errs[H[0]] + floor + 1e-6 \
+        if errs[H[0]] <= floor + 1e-6:
+            ctx.count('smib:error_below_floor_not_ranked')        # nothing swings (e.g. local load equals the generation)
+        elif not (errs[H[2]] < errs[H[1]] < errs[H[0]]) or errs[H[2]] > 0.8 * errs[H[0]] + floor + 1e-6 \
                 or e_x > 0.75 * errs[H[2]] + floor + 1e-6:
             ctx.fail('trajectory_differs_from_reference', dict(case=brief, err_h=errs, extrapolated_err=e_x, swing=swing), sig=sig)
     if errs[H[2]] > errs[H[0]] * 1.05 + floor + 1e-6:
